@@ -33,6 +33,7 @@ type RunCfg struct {
 	Params   map[string]string `json:"params"`
 	Thorough map[string]string `json:"thorough_params"`
 	Unwind   int               `json:"unwind"`
+	MaxPreempt int             `json:"max_preemptions"`
 	MaxSteps int               `json:"max_steps"`
 	Bounds   string            `json:"bounds"`
 	BoundsT  string            `json:"bounds_thorough"`
@@ -238,7 +239,7 @@ func Main(args []string) int {
 		}
 		for _, rev := range orders {
 			opts := Options{RepoDir: *repo, Pkg: rc.Pkg, Overlay: overlay, Tags: append([]string{"verif"}, rc.Tags...),
-				Harness: rc.Fn, Mode: rc.Mode, Workers: *workers, Unwind: rc.Unwind, MaxSteps: rc.MaxSteps,
+				Harness: rc.Fn, Mode: rc.Mode, Workers: *workers, Unwind: rc.Unwind, MaxPreempt: rc.MaxPreempt, MaxSteps: rc.MaxSteps,
 				KeepSamples: 3, KnownOpen: openIDs, Params: params, MapOrderReverse: rev, MaxPaths: *maxPaths,
 				CrossCheck: *tier == "thorough", QueryTimeoutMs: rc.QueryMs, Stubs: rc.Stubs}
 			if *tier == "thorough" && opts.QueryTimeoutMs == 0 {
